@@ -25,6 +25,9 @@ pub enum BatchHost {
     /// goes on for two lines after the tag), the end tag in a one-line HTML comment after a blank
     /// line.
     MdMulti,
+    /// Python, but the end tag's comment shares the line of the last content line
+    /// (`last  # </block>`): the content does not end with a line break.
+    PyEndShared,
 }
 
 #[derive(Clone, Debug)]
@@ -54,7 +57,7 @@ impl Batch {
     }
     pub fn file_name(&self) -> &'static str {
         match self.host {
-            BatchHost::Py => "x.py",
+            BatchHost::Py | BatchHost::PyEndShared => "x.py",
             BatchHost::MdMulti => "x.md",
         }
     }
@@ -74,7 +77,7 @@ impl Batch {
         let tag_line = self.next_line;
         let tag = if attrs.is_empty() { "<block>".to_string() } else { format!("<block {attrs}>") };
         match self.host {
-            BatchHost::Py => self.raw_line(&format!("# {tag}")),
+            BatchHost::Py | BatchHost::PyEndShared => self.raw_line(&format!("# {tag}")),
             BatchHost::MdMulti => {
                 self.raw_line(&format!("<!-- {tag}"));
                 self.raw_line("     the comment goes on");
@@ -82,11 +85,17 @@ impl Batch {
             }
         }
         let first_content_line = self.next_line;
-        for l in lines {
-            self.raw_line(l);
+        let shared = self.host == BatchHost::PyEndShared && !lines.is_empty();
+        for (i, l) in lines.iter().enumerate() {
+            if shared && i + 1 == lines.len() {
+                self.raw_line(&format!("{l}  # </block>"));
+            } else {
+                self.raw_line(l);
+            }
         }
         let end_line = match self.host {
-            BatchHost::Py => {
+            BatchHost::Py | BatchHost::PyEndShared if shared => self.next_line - 1,
+            BatchHost::Py | BatchHost::PyEndShared => {
                 self.raw_line("# </block>");
                 self.next_line - 1
             }
